@@ -424,12 +424,17 @@ class ReplayDivergence(Exception):
     pass
 
 
+class SchedulerStuck(Exception):
+    pass
+
+
 class Scheduler:
     """Runs the bodies of one parallel region as threads, exactly one running at a time; at every scheduling
     point the next thread is `enabled[choice]` with enabled in canonical order (running thread first if still
     enabled, then ascending ids).  Choices come from `prefix`, then 0."""
 
-    def __init__(self, prefix=(), horizon=200000):
+    def __init__(self, prefix=(), horizon=200000, stuck_after=20.0):
+        self.stuck_after = stuck_after
         self.prefix = list(prefix)
         self.points = []
         self.trace = []       # (task, info) in execution order
@@ -504,7 +509,11 @@ class Scheduler:
                 break
             self.preemptions = preempt
             self._sems[nxt].release()
-            self._ctrl.acquire()
+            if not self._ctrl.acquire(timeout=self.stuck_after):
+                # the running thread neither reached a scheduling point nor finished: it is blocked on something the
+                # scheduler does not own (a real lock held by a paused thread, I/O); this exploration is inconclusive
+                self._abort = True
+                raise SchedulerStuck(f'thread {nxt} blocked outside the scheduler at step {steps}')
         if errs:
             self._abort = True
             for i in range(n):
@@ -605,14 +614,18 @@ class _Lower(ast.NodeTransformer):
         stored.discard(var)
         # (1) loop-carried: first occurrence in the body is a read/augmented assignment of a name the body stores
         seen = set()
+        reductions = set()
         for s in loop.body:
             for n in _names_in_order(s):
                 if n[0] in stored and n[0] not in seen:
                     seen.add(n[0])
+                    if n[1] == 'aug' and all(k == 'aug' for (nm, k) in (x for st_ in loop.body for x in _names_in_order(st_)) if nm == n[0]):
+                        reductions.add(n[0])      # a pure scalar reduction (x += ...): shared accumulator, numba reduces it safely
+                        continue
                     if n[1] != 'store':
                         raise TwinError(f'{self.fname}: `{n[0]}` is loop-carried across prange iterations (reduction); closure conversion would change meaning')
-        # (2) value used after the loop
-        live = set(stored) | {var}
+        # (2) value used after the loop (reductions are meant to be)
+        live = (set(stored) - reductions) | {var}
         for s in following:
             for n in _names_in_order(s):
                 if n[0] in live:
@@ -622,14 +635,34 @@ class _Lower(ast.NodeTransformer):
                         raise TwinError(f'{self.fname}: `{n[0]}` assigned in a prange body is read after the loop')
         self.k += 1
         name = f'__body_{self.k}'
+        body = [_continue_to_return(st_) for st_ in loop.body]
+        if reductions:
+            body = [ast.Nonlocal(names=sorted(reductions))] + body
         fn = ast.FunctionDef(name=name, args=ast.arguments(posonlyargs=[], args=[ast.arg(arg=var)], kwonlyargs=[], kw_defaults=[], defaults=[]),
-                             body=loop.body, decorator_list=[], returns=None, type_comment=None, type_params=[])
+                             body=body, decorator_list=[], returns=None, type_comment=None, type_params=[])
         n_expr = loop.iter.args[0] if len(loop.iter.args) == 1 else None
         if n_expr is None:
             raise TwinError('prange with start/step not supported')
         call = ast.Expr(ast.Call(func=ast.Attribute(value=ast.Name(id='__rt', ctx=ast.Load()), attr='parallel_for', ctx=ast.Load()),
                                  args=[n_expr, ast.Name(id=name, ctx=ast.Load()), ast.Constant(value=f'{self.fname}:{loop.lineno}')], keywords=[]))
         return [ast.copy_location(fn, loop), ast.copy_location(call, loop)]
+
+
+def _continue_to_return(node):
+    """`continue` that belongs to the prange loop itself (not to an inner loop) ends the closure call"""
+    class T(ast.NodeTransformer):
+        def visit_For(self, n):
+            return n
+
+        def visit_While(self, n):
+            return n
+
+        def visit_FunctionDef(self, n):
+            return n
+
+        def visit_Continue(self, n):
+            return ast.copy_location(ast.Return(value=None), n)
+    return T().visit(node)
 
 
 def _is_prange(it):
